@@ -59,7 +59,10 @@ ASSUMPTIONS = ['all model variables are float64 series; integers passed to the e
                'wrap, continuation join, indent — with the text of the generated module for every equation and index array',
                'FParse.v reads the generated statement by the expression grammar of gfortran (matchexp.c with the GNU unary-minus extension); '
                'that this IS how gfortran groups the operators is observed through the float part of K (bit-equal values), not proved',
-               'the instance-level lags/leads/endogenous equal the class-level ones generated from the symbols',
+               'the instance-level lags / leads / endogenous are the class-level ones generated from the symbols, or lags / leads RAISED by the user '
+               '(generated; both engines then use the instance values for the feasibility guard and the default range). LOWERING m.lags / m.leads '
+               'below the compiled values, or removing names from m.endogenous, is outside C07: the Python engine then reads wrapped-around values '
+               '(the subject of C04) where the compiled guard raises IndexError, and the template copies the compiled endogenous list under offset',
                'theorems: IEEE sign symmetry (-x)*y = -(x*y), (-x)/y = -(x/y) is a hypothesis (Fortran reads -a*b as -(a*b)); exp/log/** are '
                'oracles shared by both evaluators; the tie between the generated Fortran TEXT and the syntax tree FSem.f_eval interprets '
                '(gfortran parsing, kinds, constant folding, code generation) is observed through K only']
@@ -179,7 +182,7 @@ def dec_parts(text):
     return int((ip + fp) or '0'), len(fp)
 
 
-def s_prefix(n, row):
+def s_prefix(n, row, dbl=False):
     """The tree in the prefix notation the extraction driver reads (FParse.sexpr)."""
     k = n[0]
     if k == 'v':
@@ -189,17 +192,17 @@ def s_prefix(n, row):
     if k == 'i':
         return 'i %d' % n[1]
     if k == 'd':
-        return 'd %d %d' % dec_parts(n[1])
+        return ('D %d %d' if dbl else 'd %d %d') % dec_parts(n[1])
     if k == 'par':
-        return 'p ' + s_prefix(n[1], row)
+        return 'p ' + s_prefix(n[1], row, dbl)
     if k == 'neg':
-        return 'n ' + s_prefix(n[1], row)
+        return 'n ' + s_prefix(n[1], row, dbl)
     if k == 'b':
-        return 'b %s %s %s' % (n[1], s_prefix(n[2], row), s_prefix(n[3], row))
+        return 'b %s %s %s' % (n[1], s_prefix(n[2], row, dbl), s_prefix(n[3], row, dbl))
     if k == 'f':
-        return '%s %s' % ({'abs': 'a', 'exp': 'e', 'log': 'l'}[n[1]], s_prefix(n[2], row))
+        return '%s %s' % ({'abs': 'a', 'exp': 'e', 'log': 'l'}[n[1]], s_prefix(n[2], row, dbl))
     if k == 'm':
-        return '%s %s %s' % ('M' if n[1] == 'max' else 'm', s_prefix(n[2], row), s_prefix(n[3], row))
+        return '%s %s %s' % ('M' if n[1] == 'max' else 'm', s_prefix(n[2], row, dbl), s_prefix(n[3], row, dbl))
     raise AssertionError(n)
 
 
@@ -400,7 +403,26 @@ def gen_program(rng, family):
                                              ['m', 'max', ['d', '0.5'], ['v', rng.choice(exo), 0]], ['f', 'log', ['d', '2.0']],
                                              ['b', '/', ['neg', ['i', 1]], ['i', 2]], ['b', '*', ['i', 3], ['d', '0.1']]]), rhs]
             eqs.append([y, rhs])
-    return {'eqs': eqs, 'family': family, 'style': rng.choice([' ', ' ', ''])}
+    pr = {'eqs': eqs, 'family': family, 'style': rng.choice([' ', ' ', ''])}
+    if rng.random() < 0.15 and family != 'bad':
+        # explicit arguments of the two builders (the same to both) and a wrap width of the caller's choice
+        need_lg, need_ld = lags_leads(pr)
+        ba = {}
+        q = rng.random()
+        if q < 0.4:
+            ba['lags'] = need_lg + rng.choice([0, 1, 2])
+            if rng.random() < 0.5:
+                ba['min_lags'] = ba['lags'] + 1                 # ignored when lags= is given, by both builders
+        elif q < 0.6:
+            ba['min_lags'] = need_lg + rng.choice([0, 1, 3])
+        if rng.random() < 0.4:
+            ba['leads'] = need_ld + rng.choice([0, 1])
+        elif rng.random() < 0.3:
+            ba['min_leads'] = need_ld + rng.choice([1, 2])
+        if rng.random() < 0.6:
+            ba['wrap_width'] = rng.choice([40, 60, 72, 120])
+        pr['bargs'] = ba
+    return pr
 
 
 def _benign(rng, n, env):
@@ -489,6 +511,9 @@ def gen_opts(rng):
 def gen_runs(rng, prog, k):
     """k run cases (data / options / entry point) for one program."""
     lg, ld = lags_leads(prog)
+    ba = prog.get('bargs') or {}
+    lg = ba.get('lags', max(lg, ba.get('min_lags', 0)))
+    ld = ba.get('leads', max(ld, ba.get('min_leads', 0)))
     out = []
     script = script_of(prog)
     for j in range(k):
@@ -518,6 +543,9 @@ def gen_runs(rng, prog, k):
             c['t'] = p if rng.random() < 0.6 else p - n
             if q > 0.985:
                 c['t'] = rng.choice([n, -n - 1, n + 3])
+        c['span'] = rng.choice(['int'] * 6 + ['repeat', 'numpy', 'pandas'])
+        if c['span'] == 'repeat' and c['entry'] == 'solve':
+            c['start'], c['end'] = None, None            # a repeated label is no unambiguous start= / end= (C05's subject)
         if c['entry'] != 'evaluate' and rng.random() < 0.3:
             p = c.get('t', feas[0] if c.get('start') is None else c['start'])
             p = p if p >= 0 else p + n
@@ -563,6 +591,14 @@ def corpus(rng):
                 ['b', '/', neg(mul(X, Z)), neg(W)], mul(['par', neg(X)], Z), ['b', '-', ['b', '-', X, Z], ['b', '-', Z, W]]):
         P.append(prog(['Y', rhs], family='sign'))
 
+    # more than 100 variables: three-digit row numbers in the rewritten terms and in the index arrays (which then wrap, too)
+    big = [['E%d' % i, ['b', '+', ['b', '*', ['p', 'a'], ['v', 'E%d' % (i - 1), 0] if i else ['v', 'X0', 0]], ['v', 'X%d' % (i % 5), -1 if i % 7 == 0 else 0]]]
+           for i in range(104)]
+    tot = ['v', 'E0', 0]
+    for i in range(1, 104):
+        tot = ['b', '+' if i % 3 else '-', tot, ['v', 'E%d' % i, 0]]
+    P.append(prog(*(big + [['TOTAL', tot]]), family='big'))
+
     def nest(k, leaf):
         for _ in range(k):
             leaf = ['f', 'abs', leaf]
@@ -579,7 +615,7 @@ def gen(rng, tier):
     fixed = corpus(rng)
     for pr in fixed:
         cases.append({'kind': 'text', 'prog': pr, 'script': script_of(pr)})
-        cases += gen_runs(rng, pr, (8 if pr['family'] in ('sign', 'wrap') else 24) if tier == 'quick' else (30 if pr['family'] in ('sign', 'wrap') else 60))
+        cases += gen_runs(rng, pr, (4 if pr['family'] == 'big' else 8 if pr['family'] in ('sign', 'wrap') else 24) if tier == 'quick' else (12 if pr['family'] == 'big' else 30 if pr['family'] in ('sign', 'wrap') else 60))
     # hand-made boundary runs on the first corpus program (one equation, one lag)
     p0 = fixed[0]
     for t, mx, mn, off, fl, er in [(1, 0, 0, 0, 'raise', 'raise'), (1, 0, 0, 0, 'ignore', 'raise'), (0, 3, 0, 0, 'raise', 'raise'), (-4, 3, 0, 0, 'raise', 'raise'),
@@ -658,7 +694,7 @@ def with_histories(rng, cases):
     """Non-default `check` lists and histories: some run cases get a list of convergence variables of their own (a subset / another
     order / exogenous names), and some are preceded, IN THE SAME PROCESS, by the solve of a DIFFERENT Fortran-backed model that uses the
     same check names at other rows."""
-    runs = [c for c in cases if c['kind'] == 'run' and c['entry'] != 'evaluate' and c['prog']['family'] not in ('long', 'wrap', 'bad', 'mixed')
+    runs = [c for c in cases if c['kind'] == 'run' and c['entry'] != 'evaluate' and c['prog']['family'] not in ('long', 'wrap', 'bad', 'mixed', 'big')
             and not c.get('keep') and 'check' not in c]
     by_script = {}
     for c in runs:
@@ -666,6 +702,8 @@ def with_histories(rng, cases):
     scripts = sorted(by_script)
     for c in runs:
         q = rng.random()
+        if 0.2 <= q < 0.25:
+            c['edit'] = {rng.choice(['lags', 'leads']): rng.choice([1, 1, 2])}
         if q >= 0.2:
             continue
         roles = names_in(c['prog'])
@@ -728,16 +766,20 @@ class Build:
     pass
 
 
-def build(script):
-    if script in _BUILDS:
-        return _BUILDS[script]
+def build(script, bargs=None):
+    """bargs: explicit lags= / leads= / min_lags= / min_leads= given to BOTH builders, wrap_width= to build_fortran_definition."""
+    bargs = bargs or {}
+    key_ = script + '\0' + json.dumps(bargs, sort_keys=True)
+    if key_ in _BUILDS:
+        return _BUILDS[key_]
+    both = {k: v for k, v in bargs.items() if k != 'wrap_width'}
     import fsic
     import fsic.fortran as FT
     import fortran_ctypes as fc
     b = Build()
     b.symbols = fsic.parse_model(script)
-    b.Py = fsic.build_model(b.symbols)
-    b.text = FT.build_fortran_definition(b.symbols)
+    b.Py = fsic.build_model(b.symbols, **both)
+    b.text = FT.build_fortran_definition(b.symbols, **bargs)
     b.names = list(b.Py.NAMES)
 
     class Rec(b.Py):
@@ -757,6 +799,8 @@ def build(script):
         errs = re.findall(r'Error: (.*)', msg)
         b.compile = errs[0] if errs else msg[-200:]
         b.F = None
+    eqcode = re.search(r'\n  ! -{60,}\n(.*?)\n  ! -{60,}\n', b.text, re.S)
+    b.dkind = bool(eqcode and re.search(r'(?<![A-Za-z_])(?:\d+\.?\d*|\.\d+)(?:[dD][+-]?\d+|_8\b|_dp\b)', re.sub(r'^\s*!.*$', '', eqcode.group(1), flags=re.M)))
     b.maxword = 0
     for s_ in b.symbols:
         if getattr(s_, 'equation', None):
@@ -769,17 +813,29 @@ def build(script):
     b.fmod = {'lags': int(m.group(1)), 'leads': int(m.group(2)), 'endo': [int(x) for x in (me.group(2) or '').split(',') if x.strip()]}
     if len(_BUILDS) > 64:
         _BUILDS.clear()
-    _BUILDS[script] = b
+    _BUILDS[key_] = b
     return b
 
 
 def _instantiate(cls, case):
     n = case['n']
-    span = list(range(2000, 2000 + n))
+    kind = case.get('span', 'int')
+    if kind == 'repeat':
+        span = [2000 + i // 2 for i in range(n)]           # every label (but possibly the last) occurs twice
+    elif kind == 'numpy':
+        import numpy as np
+        span = np.arange(2000, 2000 + n)
+    elif kind == 'pandas':
+        import pandas as pd
+        span = pd.period_range(start='2000', periods=n, freq='Y')
+    else:
+        span = list(range(2000, 2000 + n))
     m = cls(span)
     for nm, row in case['data'].items():
         m.__dict__['_' + nm][:] = [lib.unhex(x) for x in row]
     m.__dict__['_snaps'] = []
+    for attr, extra in (case.get('edit') or {}).items():
+        setattr(m, attr, getattr(m, attr) + extra)         # instance-level lags / leads RAISED by the user (lowering them is outside C07: see ASSUMPTIONS)
     if case.get('check') is not None:
         m.check = list(case['check'])          # a non-default list of convergence variables (any variable names, any order)
     return m, span
@@ -914,10 +970,10 @@ def impl(case):
         return impl_text(case)
     import numpy as np
     import fsic.parser as FP
-    b = build(case['script'])
+    b = build(case['script'], case['prog'].get('bargs'))
     prog = case['prog']
     names = b.names
-    obs = {'names': names, 'compile': b.compile, 'fmod': b.fmod, 'maxword': b.maxword}
+    obs = {'names': names, 'compile': b.compile, 'fmod': b.fmod, 'maxword': b.maxword, 'dkind': b.dkind}
     m, span = _instantiate(b.Rec, case)
     obs['check'] = [names.index(x) for x in m.check]
     obs['endo'] = [names.index(x) for x in m.endogenous]
@@ -979,7 +1035,7 @@ def impl(case):
         # HISTORY: other Fortran-backed models solved earlier in this very process (same check names, other variable orders) must not
         # influence this run (no state shared between model classes)
         for pl in case.get('prelude', []):
-            bp = build(pl['script'])
+            bp = build(pl['script'], pl['prog'].get('bargs'))
             if bp.F is not None:
                 mp, spanp = _instantiate(bp.F, pl)
                 _call(mp, spanp, pl)
@@ -1001,7 +1057,7 @@ def impl(case):
 def impl_text(case):
     import fsic
     from fsic.parser import Type
-    b = build(case['script'])
+    b = build(case['script'], case['prog'].get('bargs'))
     syms = b.symbols
     by = lambda ty: [s.name for s in syms if s.type == ty]
     text = b.text
@@ -1019,7 +1075,7 @@ def impl_text(case):
     return {'endo': by(Type.ENDOGENOUS), 'exo': by(Type.EXOGENOUS), 'par': by(Type.PARAMETER), 'err': by(Type.ERROR),
             'names': b.names, 'equations': [s.equation for s in syms if s.type == Type.ENDOGENOUS and s.equation is not None],
             'blocks': blocks, 'defs': defs, 'lags': int(mm.group(1)), 'leads': int(mm.group(2)),
-            'sym_lags': [int(s.lags) for s in nis], 'sym_leads': [int(s.leads) for s in nis], 'compile': b.compile, 'maxword': b.maxword,
+            'sym_lags': [int(s.lags) for s in nis], 'sym_leads': [int(s.leads) for s in nis], 'compile': b.compile, 'maxword': b.maxword, 'dkind': b.dkind,
             'summary': re.findall(r'^!   (.*)$', text, re.M)}
 
 
@@ -1032,7 +1088,7 @@ Open Scope float_scope. Open Scope Z_scope.
 BINOP = {'+': 'OAdd', '-': 'OSub', '*': 'OMul', '/': 'ODiv', '^': 'OPow'}
 
 
-def c_sexpr(n, row):
+def c_sexpr(n, row, dbl=False):
     k = n[0]
     if k == 'v':
         return '(SVar %d%%nat %s)' % (row[n[1]], lib.cZ(n[2]))
@@ -1041,21 +1097,21 @@ def c_sexpr(n, row):
     if k == 'i':
         return '(SInt %s)' % lib.cZ(n[1])
     if k == 'd':
-        return '(SDec %s %d%%nat)' % ((lambda ms: (lib.cZ(ms[0]), ms[1]))(dec_parts(n[1])))
+        return '(%s %s %d%%nat)' % (('SDec8' if dbl else 'SDec',) + (lambda ms: (lib.cZ(ms[0]), ms[1]))(dec_parts(n[1])))
     if k == 'par':
-        return '(SPar %s)' % c_sexpr(n[1], row)
+        return '(SPar %s)' % c_sexpr(n[1], row, dbl)
     if k == 'neg':
-        return '(SNeg %s)' % c_sexpr(n[1], row)
+        return '(SNeg %s)' % c_sexpr(n[1], row, dbl)
     if k == 'b':
-        return '(SBin %s %s %s)' % (BINOP[n[1]], c_sexpr(n[2], row), c_sexpr(n[3], row))
+        return '(SBin %s %s %s)' % (BINOP[n[1]], c_sexpr(n[2], row, dbl), c_sexpr(n[3], row, dbl))
     if k == 'f':
-        return '(%s %s)' % ({'abs': 'SAbs', 'exp': 'SExp', 'log': 'SLog'}[n[1]], c_sexpr(n[2], row))
+        return '(%s %s)' % ({'abs': 'SAbs', 'exp': 'SExp', 'log': 'SLog'}[n[1]], c_sexpr(n[2], row, dbl))
     if k == 'm':
-        return '(SMM %s %s %s)' % ('MMax' if n[1] == 'max' else 'MMin', c_sexpr(n[2], row), c_sexpr(n[3], row))
+        return '(SMM %s %s %s)' % ('MMax' if n[1] == 'max' else 'MMin', c_sexpr(n[2], row, dbl), c_sexpr(n[3], row, dbl))
     raise AssertionError(n)
 
 
-def c_expr(n, row):
+def c_expr(n, row, dbl=False):
     """FSem.expr term = FParse.to_expr of the tree of the TEXT (paren_tree), the decimal literals given their binary64 / binary32
     values through a table — the same tree the text part of K compares the parsed Fortran statement with."""
     import numpy as np
@@ -1063,7 +1119,7 @@ def c_expr(n, row):
     decs = sorted({nd[1] for nd in walk(t) if nd[0] == 'd'})
     tab = lib.clist('(%s, %d%%nat, %s, %s)' % (lib.cZ(dec_parts(x)[0]), dec_parts(x)[1], lib.cfloat(lib.fhex(float(x))),
                                                lib.cfloat(lib.fhex(float(np.float32(x))))) for x in decs)
-    return '(to_expr float (dlook poison %s) %s)' % (tab, c_sexpr(t, row))
+    return '(to_expr float (dlook poison %s) %s)' % (tab, c_sexpr(t, row, dbl))
 
 
 def c_state(vals, status, iters):
@@ -1149,7 +1205,7 @@ def r4_transcendental(prog):
 def c_ccase(case, obs):
     names = obs['names']
     row = {nm: i for i, nm in enumerate(names)}
-    prog = lib.clist('(%d%%nat, %s)' % (row[lhs], c_expr(rhs, row)) for lhs, rhs in ordered_eqs(case['prog'], names))
+    prog = lib.clist('(%d%%nat, %s)' % (row[lhs], c_expr(rhs, row, bool(obs.get('dkind')))) for lhs, rhs in ordered_eqs(case['prog'], names))
     o = case['opts']
     desc = '(mkDesc %s %s %d%%nat %d%%nat)' % (lib.clist('%d%%nat' % i for i in obs['check']), lib.clist('%d%%nat' % i for i in obs['endo']), obs['lags'], obs['leads'])
     fm = obs['fmod']
@@ -1162,7 +1218,8 @@ def c_ccase(case, obs):
     elif case['entry'] == 'solve_t':
         entry = '(ESolveT %s)' % lib.cZ(case['t'])
     else:
-        entry = '(ESolve %s)' % lib.clist('%d%%nat' % p for p in solve_positions(case, obs))
+        opt = lambda x: 'None' if x is None else '(Some %d%%nat)' % x
+        entry = '(ESolveSE %s %s)' % (opt(case.get('start')), opt(case.get('end')))      # the periods are selected by the model
     vals0 = [case['data'][nm] for nm in names]
     n = case['n']
     st0 = c_state(vals0, ['-'] * n, [-1] * n)
@@ -1176,9 +1233,7 @@ def c_ccase(case, obs):
     por = '(mkOr %s %s %s)' % (tab1(t['pexp']), tab1(t['plog']), tab2(t['ppow']))
     for_ = '(mkOr %s %s %s)' % (tab1(t['fexp']), tab1(t['flog']), tab2(t['fpow']))
     py = c_obs(case['entry'], obs['py'])
-    if obs['f'] is None and obs.get('maxword', 0) > WRAP_WIDTH:
-        f = 'None'           # the module is rejected because textwrap split a token (kept finding): not a property of the syntax tree
-    elif obs['f'] is None:
+    if obs['f'] is None:
         f = '(Some (%s, XNoCompile))' % st0
     elif f_side_compared(case, obs) and not r4_transcendental(case['prog']) and not minmax_unspecified(case, obs):
         f = c_obs(case['entry'], obs['f'])
@@ -1210,6 +1265,7 @@ let rec rd toks = match toks with
   | "v" :: i :: k :: r -> (SVar (nat_of_int (int_of_string i), z_of_int (int_of_string k)), r)
   | "i" :: z :: r -> (SInt (z_of_int (int_of_string z)), r)
   | "d" :: m :: s :: r -> (SDec (z_of_int (int_of_string m), nat_of_int (int_of_string s)), r)
+  | "D" :: m :: s :: r -> (SDec8 (z_of_int (int_of_string m), nat_of_int (int_of_string s)), r)
   | "n" :: r -> let (a, r1) = rd r in (SNeg a, r1)
   | "p" :: r -> let (a, r1) = rd r in (SPar a, r1)
   | "a" :: r -> let (a, r1) = rd r in (SAbs a, r1)
@@ -1224,6 +1280,7 @@ let rec show = function
   | SVar (i, k) -> Printf.sprintf "v%d@%d" (int_of_nat i) (int_of_z k)
   | SInt z -> string_of_int (int_of_z z)
   | SDec (m, s) -> Printf.sprintf "%de-%d" (int_of_z m) (int_of_nat s)
+  | SDec8 (m, s) -> Printf.sprintf "%dd-%d" (int_of_z m) (int_of_nat s)
   | SNeg a -> "(neg " ^ show a ^ ")" | SPar a -> "(par " ^ show a ^ ")"
   | SAbs a -> "(abs " ^ show a ^ ")" | SExp a -> "(exp " ^ show a ^ ")" | SLog a -> "(log " ^ show a ^ ")"
   | SBin (o, a, b) -> "(" ^ (match o with OAdd -> "+" | OSub -> "-" | OMul -> "*" | ODiv -> "/" | OPow -> "**") ^ " " ^ show a ^ " " ^ show b ^ ")"
@@ -1309,6 +1366,14 @@ def nospace(x):
     return re.sub(r'\s+', '', x)
 
 
+TOKEN_RE = re.compile(r'\*\*|[A-Za-z_][A-Za-z_0-9]*|(?:\d+\.?\d*|\.\d+)(?:[dDeE][+-]?\d+)?(?:_\w+)?|\S')
+
+
+def tokens(x):
+    """The text as a list of Fortran tokens: equality of token lists ignores where blanks and line breaks are, but a split token differs."""
+    return TOKEN_RE.findall(x)
+
+
 def wsnorm(x):
     """Runs of blanks collapsed to one blank: equality of wsnorm(' '.join(lines)) with wsnorm(code) says the lines are the code
     broken at blanks only (no token split, none glued)."""
@@ -1331,8 +1396,16 @@ def text_requests(case, o):
     for x in names:
         rq.append(('N\t%s\t%s' % (nm, x), '=%d' % (o['names'].index(x) + 1), 'number of %s = position in NAMES + 1' % x))
         rq.append(('X\t%s\t%s' % (nm, x), '=%d' % o['names'].index(x), 'index of %s' % x))
-    rq.append(('L\t%s\t0' % US.join(map(str, o['sym_lags'])), '=%d' % o['lags'], 'lags'))
-    rq.append(('M\t%s\t0' % US.join(map(str, o['sym_leads'])), '=%d' % o['leads'], 'leads'))
+    ba = case['prog'].get('bargs') or {}
+    # lags = given value, else max(abs(min(symbol lags)), min_lags) — likewise leads
+    if 'lags' in ba:
+        rq.append(('N\t%s\t%s' % (nm, names[0]), (lambda a, want=o['lags'], given=ba['lags']: want == given), 'explicit lags= is written as given'))
+    else:
+        rq.append(('L\t%s\t%d' % (US.join(map(str, o['sym_lags'])), ba.get('min_lags', 0)), '=%d' % o['lags'], 'lags'))
+    if 'leads' in ba:
+        rq.append(('N\t%s\t%s' % (nm, names[0]), (lambda a, want=o['leads'], given=ba['leads']: want == given), 'explicit leads= is written as given'))
+    else:
+        rq.append(('M\t%s\t%d' % (US.join(map(str, o['sym_leads'])), ba.get('min_leads', 0)), '=%d' % o['leads'], 'leads'))
     if len(o['blocks']) != len(o['equations']):
         rq.append(('?', '=never', 'number of equation blocks %d != number of equations %d' % (len(o['blocks']), len(o['equations']))))
         return rq
@@ -1344,18 +1417,14 @@ def text_requests(case, o):
         wrapped = body[len('! ' + eq + '\n'):].split('  &\n&  ')
         joined = wsnorm(' '.join(wrapped))
 
-        def same_code(a, j=joined):
-            if not a.startswith('='):
-                return False
-            if wsnorm(a[1:]) == j:
-                return True
-            # a blank-free run longer than the wrap width: textwrap breaks inside it (kept finding); the lines still are the code
-            return max(len(w) for w in a[1:].split()) > WRAP_WIDTH and nospace(a[1:]) == nospace(j)
+        def same_code(a, j=tokens(' '.join(wrapped))):
+            # the lines are the code broken between tokens (at blanks, or after a parenthesis / comma for an over-long run)
+            return a.startswith('=') and tokens(a[1:]) == j
         rq.append(('R\t%s\t%s' % (nm, eq), same_code, 'rewrite of %r' % eq[:60]))
         rq.append(('S\t%s\t%s' % (nm, eq), same_code, 'stream rewrite of %r' % eq[:60]))
         rq.append(('B\t%s\t%s' % (eq, US.join(wrapped)), '=' + blk.replace('\n', '\x1e'), 'block of %r' % eq[:60]))
         # the WHOLE text pipeline in the model (rewrite, FWrap.wrap = textwrap.wrap, continuation join, indent): no oracle
-        rq.append(('E\t%s\t%d\t%s' % (nm, WRAP_WIDTH, eq), '=' + blk.replace('\n', '\x1e'), 'equation_block of %r' % eq[:60]))
+        rq.append(('E\t%s\t%d\t%s' % (nm, (case['prog'].get('bargs') or {}).get('wrap_width', WRAP_WIDTH), eq), '=' + blk.replace('\n', '\x1e'), 'equation_block of %r' % eq[:60]))
     # every term of the syntax tree: NAME[idx_text k] stands in the equation, term_f (number) (idx_text k) = solved_values(number, f_idx_text k)
     # stands in the code generated for it
     by_lhs = {}
@@ -1366,12 +1435,12 @@ def text_requests(case, o):
             rq.append(('?', '=never', 'no equation block for %s' % lhs))
             continue
         eq, code = by_lhs[lhs]
-        if o.get('maxword', 0) <= WRAP_WIDTH:
+        if True:
             # THE TIE text -> tree: the statement the compiler reads (continuation lines joined) parses, by the Fortran expression
             # grammar of FParse.v, to the regrouped tree of the text — the tree the float part of K evaluates
             blk_raw = [b_ for e_, b_ in zip(o['equations'], o['blocks']) if e_ == eq][0]
             rowmap = {nm_: i_ for i_, nm_ in enumerate(o['names'])}
-            rq.append(('P\t%s\t%d\t%s' % (blk_raw.replace('\n', '\x1e'), rowmap[lhs], s_prefix(paren_tree(rhs), rowmap)), '=true',
+            rq.append(('P\t%s\t%d\t%s' % (blk_raw.replace('\n', '\x1e'), rowmap[lhs], s_prefix(paren_tree(rhs), rowmap, bool(o.get('dkind')))), '=true',
                        'generated statement for %s parses to the regrouped tree' % lhs))
         terms = {(lhs, 0)} | {(nd[1], nd[2] if nd[0] == 'v' else 0) for nd in walk(rhs) if nd[0] in ('v', 'p', 'e')}
         for name, k in sorted(terms):
@@ -1388,7 +1457,7 @@ def text_requests(case, o):
         nums = [o['names'].index(x) + 1 for x in lst]
         rq.append(('D\t%s\t%s' % (name, US.join(map(str, nums))), (lambda a, j=wsnorm(' '.join(wrapped)): a.startswith('=') and wsnorm(a[1:]) == j), 'definition of %s' % name))
         rq.append(('W\t%s' % US.join(wrapped), '=' + d_.replace('\n', '\x1e'), 'wrapped definition of %s' % name))
-        rq.append(('F\t%s\t%d\t%s' % (name, WRAP_WIDTH, US.join(map(str, nums))), '=' + d_.replace('\n', '\x1e'), 'array_def_block of %s' % name))
+        rq.append(('F\t%s\t%d\t%s' % (name, (case['prog'].get('bargs') or {}).get('wrap_width', WRAP_WIDTH), US.join(map(str, nums))), '=' + d_.replace('\n', '\x1e'), 'array_def_block of %s' % name))
     return rq
 
 
@@ -1483,6 +1552,8 @@ def oracle(case, obs):
         return fails
     prog = case['prog']
     cls = classify_program(prog['eqs'])
+    if obs.get('dkind'):
+        cls -= {'real4-literal', 'real4-arithmetic'}        # the generated code writes its decimal constants in double precision
     n = case['n']
     o = case['opts']
     py, f = obs['py'], obs['f']
@@ -1492,9 +1563,6 @@ def oracle(case, obs):
             bad('compile|mixed-kind-minmax', 'gfortran rejects min/max of an integer literal and a REAL(8) variable (%s)' % obs['compile'][:80])
         elif 'integer-argument-exp-log' in cls:
             bad('compile|integer-argument-exp-log', 'gfortran rejects exp/log of an integer literal (%s)' % obs['compile'][:80])
-        elif obs.get('maxword', 0) > WRAP_WIDTH:
-            bad('compile|wrap-splits-token', 'the rewritten equation has a blank-free run of %d > %d characters: textwrap.wrap (break_long_words) '
-                'breaks it inside a token and the continuation `  &\\n&  ` puts blanks there (%s)' % (obs['maxword'], WRAP_WIDTH, obs['compile'][:80]))
         else:
             bad('compile|other', 'generated Fortran does not compile: %s ; script: %s' % (obs['compile'][:120], case['script'][:200]))
         return fails
@@ -1510,30 +1578,16 @@ def oracle(case, obs):
     if any(not (0 <= p < n) for p in ps) or (case['entry'] != 'solve' and not (-n <= case['t'] < n)):
         return fails                                       # t outside the span
     pyo, fo = py['out'], f['out']
-    # max_iter <= 0 with a feasible first period: that period decides (no pass runs; kept finding), whatever comes later
-    if case['entry'] != 'evaluate' and o['min_iter'] <= o['max_iter'] and o['max_iter'] <= 0 and ps and feasible(case, obs, ps[0]):
-        off_bad = o['offset'] != 0 and any(not (0 <= p + o['offset'] < n) for p in ps[:1])
-        if not off_bad and fo[0] == 'raise' and fo[1] == 'FortranEngineError' and not (pyo[0] == 'raise' and pyo[1] == 'FortranEngineError'):
-            if py['finite'] or pyo[0] == 'ret' or pyo[1] == 'NonConvergenceError':
-                bad('solve_t|max_iter<=0|FortranEngineError',
-                    'max_iter <= 0: Python engine records F / 0 iterations (%s), Fortran engine raises FortranEngineError (error_code stays -1)' % (pyo,))
-            return fails
     infeasible = [p for p in ps if not feasible(case, obs, p)]
-    if infeasible:
-        # the Python engine rejects such a period with IndexError (fix eb62990); the template has error codes 13/14
-        if case['entry'] == 'evaluate':
-            if pyo != fo:
-                bad('_evaluate|infeasible-t|IndexError-vs-wraparound',
-                    '_evaluate(t) at a period without room for the lags/leads: Fortran engine %s, Python engine %s (reads wrap around)' % (fo, pyo))
-        elif o['min_iter'] <= o['max_iter']:
-            if fo[0] == 'raise' and fo[1] == 'FortranEngineError' and pyo[0] == 'raise' and pyo[1] == 'IndexError':
-                bad('solve_t|infeasible-t|FortranEngineError-vs-IndexError',
-                    'period without room for the lags/leads: Python engine raises IndexError, Fortran engine FortranEngineError (codes 13/14 unmapped)')
-            elif pyo[:2] != fo[:2] and not (pyo[0] == 'raise' and fo[0] == 'raise' and {pyo[1], fo[1]} <= {'IndexError', 'FortranEngineError', 'SolutionError'}):
-                bad('solve_t|infeasible-t|other', 'infeasible period: Python %s, Fortran %s' % (pyo, fo))
+    if infeasible and case['entry'] == 'evaluate':
+        # _evaluate called directly: the generated Python has no feasibility guard (kept finding); solve_t / solve agree since fix 1354783
+        if pyo != fo:
+            bad('_evaluate|infeasible-t|IndexError-vs-wraparound',
+                '_evaluate(t) at a period without room for the lags/leads: Fortran engine %s, Python engine %s (reads wrap around)' % (fo, pyo))
         return fails
     if (case['entry'] == 'solve' and o['offset'] != 0 and o['errors'] != 'raise' and o['min_iter'] <= o['max_iter']
-            and any(not (0 <= p + o['offset'] < n) for p in ps)):
+            and any(not (0 <= p + o['offset'] < n) for p in ps)
+            and (not infeasible or min(i_ for i_, p in enumerate(ps) if not (0 <= p + o['offset'] < n)) < min(i_ for i_, p in enumerate(ps) if p in infeasible))):
         # the template keeps going after an offset error when error_control is not 'raise'; the wrapper raises afterwards
         if pyo[:2] == ['raise', 'IndexError'] and fo[:2] == ['raise', 'IndexError'] and (py['vals'] != f['vals']):
             bad('solve|offset-out-of-span|later-periods-solved',
@@ -1608,7 +1662,7 @@ def oracle_text(case, o, bad):
         bad('text|names-order', 'NAMES of the Python class is not ENDOGENOUS+EXOGENOUS+PARAMETERS+ERRORS of the symbols')
     flat = [re.sub(r'\s*&\n\s*&\s*', ' ', d_) for d_ in o['defs']]
     for d_, lst, nm in zip(flat, [o['endo'], o['exo'], o['par'], o['err']], ['endogenous', 'exogenous', 'parameters', 'errors']):
-        m = re.fullmatch(r'\s*integer, dimension\((\d+)\) :: (\w+)(?: = \(/ (.*) /\))?\s*', d_)
+        m = re.fullmatch(r'\s*integer\s*,\s*dimension\s*\((\d+)\)\s*::\s*(\w+)(?:\s*=\s*(?:\(/|\[)\s*(.*?)\s*(?:/\)|\]))?\s*', d_)   # either constructor syntax, any blanks
         got = [int(x) for x in (m.group(3) or '').replace(' ', '').split(',') if x] if m else None
         if not m or m.group(2) != nm or int(m.group(1)) != len(lst) or got != [names.index(x) + 1 for x in lst]:
             bad('text|numbering', 'array %s does not hold the one-based positions of its variables in NAMES: %r' % (nm, d_[:120]))
@@ -1616,14 +1670,11 @@ def oracle_text(case, o, bad):
         bad('text|blocks', '%d equation blocks for %d equations' % (len(o['blocks']), len(o['equations'])))
         return None
     for eq, blk in zip(o['equations'], o['blocks']):
-        code = wsnorm(re.sub(r'\s*&\n\s*&\s*', ' ', blk.split('\n', 1)[1] if '\n' in blk else ''))
-        want = wsnorm(re.sub(r'([_A-Za-z][_A-Za-z0-9]*)\[t([+-]\d+)?\]',
+        code = tokens(re.sub(r'\s*&\n\s*&\s*', ' ', blk.split('\n', 1)[1] if '\n' in blk else ''))
+        want = tokens(re.sub(r'([_A-Za-z][_A-Za-z0-9]*)\[t([+-]\d+)?\]',
                               lambda m: 'solved_values(%d, index%s)' % (names.index(m.group(1)) + 1, m.group(2) or ''), eq))
         if code != want:
-            if max(len(w) for w in want.split()) > WRAP_WIDTH and nospace(code) == nospace(want):
-                bad('text|wrap-splits-token', 'a blank-free run of more than %d characters is broken inside a token by textwrap.wrap: %r' % (WRAP_WIDTH, code[90:130]))
-            else:
-                bad('text|rewrite', 'equation %r became %r' % (eq[:80], code[:120]))
+            bad('text|rewrite', 'equation %r became %r' % (eq[:80], ' '.join(code)[:120]))
     return None
 
 
@@ -1662,7 +1713,7 @@ def shrink_candidates(case):
             c = copy.deepcopy(case)
             c['opts'][k] = v
             yield c
-    for k in ('prelude', 'check'):
+    for k in ('prelude', 'check', 'edit', 'span'):
         if k in case:
             c = copy.deepcopy(case)
             del c[k]
